@@ -25,6 +25,7 @@ type HostSpec struct {
 	Tokens  []string `json:"tokens"`
 	Version string   `json:"version"` // release_version
 	Peer    string   `json:"peer,omitempty"` // node-to-node address (system.peers.peer / system.local.broadcast_address); "" = IP
+	NoAddr  bool     `json:"no_addr,omitempty"` // the peers row carries no usable address: peer null, rpc_address 0.0.0.0
 }
 
 // PeerAddr is the node-to-node address the cluster reports for the host.
@@ -446,7 +447,11 @@ func (n *Node) PeersRows() *cqlspec.Response {
 		if len(t.Tokens) == 0 {
 			toks = cqlspec.NullValue()
 		}
-		rows = append(rows, []cqlspec.Value{inetV(t.PeerAddr()), dc, rack, uuidV(t.HostID), text(t.Version), inetV(t.IP), cqlspec.NullValue(), toks,
+		peer, rpc := inetV(t.PeerAddr()), inetV(t.IP)
+		if t.NoAddr {
+			peer, rpc = cqlspec.NullValue(), inetV("0.0.0.0")
+		}
+		rows = append(rows, []cqlspec.Value{peer, dc, rack, uuidV(t.HostID), text(t.Version), rpc, cqlspec.NullValue(), toks,
 			uuidV("00000000000010008000000000000001")})
 	}
 	return RowsResponse(cols, rows)
